@@ -496,24 +496,38 @@ func schedThorough(r *gen.R, idx int) []run.Case {
 	var mine []run.Case
 	thoroughOnce.Do(func() {
 		for _, sc := range tinyScenarios() {
-			budget := 3000
+			budget := 4000
 			if b := os.Getenv("VERIF_DFS_BUDGET"); b != "" {
 				fmt.Sscanf(b, "%d", &budget)
 			}
-			bound := 2
+			bound := 0 // unbounded: ALL hook-level interleavings (blocking keeps the space small)
 			if b := os.Getenv("VERIF_DFS_PREEMPT"); b != "" {
 				fmt.Sscanf(b, "%d", &bound)
 			}
-			sched.Explore(sc, budget, bound, func(o *sched.Outcome) bool {
+			first := len(thoroughCases)
+			runs, complete := sched.Explore(sc, budget, bound, func(o *sched.Outcome) bool {
 				c := schedCaseOf(o, "sched")
 				c.Tags = append(c.Tags, "dfs")
 				thoroughCases = append(thoroughCases, c)
 				return true
 			})
+			if first < len(thoroughCases) {
+				tag := fmt.Sprintf("dfs-truncated:%s(bound %d)", sc.Kind, bound)
+				if complete {
+					tag = fmt.Sprintf("dfs-exhaustive:%s(bound %d)", sc.Kind, bound)
+				}
+				thoroughCases[first].Tags = append(thoroughCases[first].Tags, tag)
+			}
+			fmt.Fprintf(os.Stderr, "sched dfs: kind %s: %d interleavings, exhaustive=%v (preemption bound %d)\n", sc.Kind, runs, complete, bound)
 		}
-		o := sched.Stress(sched.StressConfig{Actors: runtime.NumCPU() / 2, Millis: 20000, Seed: int64(r.U64() >> 1)})
+		ms := 20000
+		if b := os.Getenv("VERIF_STRESS_MS"); b != "" {
+			fmt.Sscanf(b, "%d", &ms)
+		}
+		o := sched.Stress(sched.StressConfig{Actors: runtime.NumCPU() / 2, Millis: ms, Seed: int64(r.U64() >> 1)})
 		c := schedCaseOf(o, "sched")
-		c.Tags = append(c.Tags, "stress")
+		c.Tags = append(c.Tags, "stress", fmt.Sprintf("stress-calls:%dk", len(o.History)/1000))
+		fmt.Fprintf(os.Stderr, "sched stress: %d calls in %d ms, %d oplog events, violations %d\n", len(o.History), ms, len(o.Oplog), len(o.Viols))
 		c.Nontrivial = true
 		thoroughCases = append(thoroughCases, c)
 		mine = thoroughCases
@@ -526,10 +540,27 @@ func tinyScenarios() []sched.Scenario {
 	return []sched.Scenario{
 		{Kind: "crud", Actors: [][]sched.Op{{o("inc", 0)}, {o("fau", 0)}}},
 		{Kind: "crud", Actors: [][]sched.Op{{o("inc", 0), o("find", 0)}, {o("ins", 0)}}},
+		{Kind: "crud", Actors: [][]sched.Op{{o("inc", 0), o("inc", 0)}, {o("fau", 0), o("find", 0)}}},
+		{Kind: "crud", Actors: [][]sched.Op{{o("inc", 0)}, {o("fau", 0)}, {o("find", 0)}}},
+		{Kind: "crud", AllowStore: true, Actors: [][]sched.Op{{o("inc", 0)}, {o("ins", 0)}}},
+		{Kind: "crud", Actors: [][]sched.Op{{o("bad", 0), o("inc", 0)}, {o("dup", 0)}}},
 		{Kind: "session", Sessions: 2, Actors: [][]sched.Op{{o("sstart", 1), o("scommit", 1)}, {o("inc", 0)}}},
+		{Kind: "session", Sessions: 2, AllowCancel: true, Actors: [][]sched.Op{{o("sstart", 1), o("sabort", 1)}, {o("inc", 0)}}},
+		{Kind: "session", Sessions: 2, Actors: [][]sched.Op{{o("sstart", 1), o("send", 1)}, {o("sstart", 2), o("scommit", 2)}}},
+		{Kind: "wtx", Sessions: 1, Actors: [][]sched.Op{{{Kind: "wtx", Sess: 1, Inner: []sched.Op{o("inc", 0)}}}, {o("inc", 0)}}},
+		{Kind: "wtx", Sessions: 1, Actors: [][]sched.Op{{{Kind: "wtx", Sess: 1, Fault: "cbPanic", Inner: []sched.Op{o("ins", 0)}}}, {o("fau", 0)}}},
+		{Kind: "direct", Actors: [][]sched.Op{{{Kind: "ebegin", Lock: true}, {Kind: "ecommit"}}, {o("inc", 0)}}},
+		{Kind: "direct", Actors: [][]sched.Op{{{Kind: "ebegin", Lock: true}, {Kind: "eabort"}}, {{Kind: "ebegin", Lock: false}, o("inc", 0)}}},
 		{Kind: "shared", Sessions: 1, Shared: true, Actors: [][]sched.Op{{o("sstart", 1), o("sabort", 1)}, {o("ins", 1)}}},
+		{Kind: "shared", Sessions: 1, Shared: true, Actors: [][]sched.Op{{o("sstart", 1), o("scommit", 1)}, {o("inc", 1), o("sabort", 1)}}},
+		{Kind: "shared", Sessions: 1, Shared: true, Actors: [][]sched.Op{{o("sstart", 1), o("sabort", 1)}, {o("sstart", 1), o("sabort", 1)}}},
 		{Kind: "endstart", Sessions: 1, Shared: true, Actors: [][]sched.Op{{o("sstart", 1)}, {o("send", 1)}}},
+		{Kind: "endstart", Sessions: 1, Shared: true, Actors: [][]sched.Op{{o("sstart", 1), o("sabort", 1)}, {o("send", 1)}, {o("inc", 0)}}},
 		{Kind: "close", Actors: [][]sched.Op{{o("inc", 0)}, {{Kind: "close"}}}},
+		{Kind: "close", Sessions: 1, Actors: [][]sched.Op{{o("sstart", 1), o("scommit", 1)}, {{Kind: "close"}}}},
+		{Kind: "close", Actors: [][]sched.Op{{o("inc", 0), o("find", 0)}, {{Kind: "close"}, o("inc", 0)}}},
+		{Kind: "stream", Actors: [][]sched.Op{{{Kind: "watch", Stream: 1}, {Kind: "next", Stream: 1}}, {o("ins", 0)}}},
+		{Kind: "stream", Actors: [][]sched.Op{{{Kind: "watch", Stream: 1}, {Kind: "next", Stream: 1}}, {{Kind: "close"}}}},
 	}
 }
 
